@@ -362,6 +362,10 @@ type vcliSrvConn struct {
 	// hooks for the individual checks
 	OnOpen func(st *vcliStream)
 	OnData func(st *vcliStream, f h2ref.Frame)
+	// OnFrame (optional, added for C10/C11) sees every complete frame of both directions before
+	// the shadow bookkeeping: client frames when Pump parses them, server frames when the
+	// harness writes them.
+	OnFrame func(fromClient bool, f h2ref.Frame)
 }
 
 func (sc *vcliSrvConn) logf(format string, a ...any) {
@@ -412,6 +416,9 @@ func (sc *vcliSrvConn) Pump() int {
 
 func (sc *vcliSrvConn) onClientFrame(f h2ref.Frame) {
 	sc.nC2S++
+	if sc.OnFrame != nil {
+		sc.OnFrame(true, f)
+	}
 	sc.S.R.Event("client_frames", 1)
 	sh := &sc.Sh
 	if sc.contStream != 0 {
@@ -749,6 +756,9 @@ func (sc *vcliSrvConn) send(b []byte) {
 
 func (sc *vcliSrvConn) onServerFrame(f h2ref.Frame) {
 	sc.nS2C++
+	if sc.OnFrame != nil {
+		sc.OnFrame(false, f)
+	}
 	sc.S.R.Event("server_frames", 1)
 	sh := &sc.Sh
 	switch f.Type {
